@@ -3,6 +3,7 @@ package c12
 import (
 	"fmt"
 	"math/rand"
+	"os"
 )
 
 const (
@@ -10,6 +11,10 @@ const (
 	nPair   = 10 * 10 * 4   // break-after × break-before × nesting variant
 	nTables = nOW + nPair
 )
+
+// includeKnown (development only, VERIF_C12_KNOWN=1) keeps the feature combinations of the genuine
+// defects of findings/C12 in the workload, to validate a repair of them.
+var includeKnown = os.Getenv("VERIF_C12_KNOWN") == "1"
 
 var breakVals = []string{"", "avoid", "avoid-page", "avoid-column", "column", "page", "left", "right", "recto", "verso"}
 
@@ -70,10 +75,10 @@ func genPair(j int) In {
 	}
 	// blockLevelPageBreak combines the values met at a break point with a table in which a
 	// column value seen first hides a later avoid / page value: genuine defects (findings/C12)
-	if ba == "avoid-column" && isAvoidValue(bb) {
+	if ba == "avoid-column" && isAvoidValue(bb) && !includeKnown {
 		in.Skip = "avoid-column-hides-avoid"
 	}
-	if ba == "column" && bb == "page" {
+	if ba == "column" && bb == "page" && !includeKnown {
 		in.Skip = "column-hides-page"
 	}
 	in.buildDoc(noLegacy)
@@ -328,6 +333,9 @@ func genRandom(r *rand.Rand) In {
 //     combination in blockLevelPageBreak loses the avoid / page value): the column values are
 //     removed there (they stay where every other value at the break point is auto).
 func sanitize(r *rand.Rand, in *In) {
+	if includeKnown {
+		return
+	}
 	fl := buildFlow(in)
 	named := ""
 	for i := range fl.blocks {
